@@ -49,23 +49,28 @@ Definition model_obs (k : acase) : list (N * N * N) :=
 
 Definition case_ok (k : acase) : bool := list_eqb obs_eqb (model_obs k) (k_obs k).
 
-(* model self-check (redundant with alert_state_is_function_of_last_N): on a case whose events
-   are evaluations only, the model's state after each evaluation is the specified one *)
+(* model self-check (redundant with alert_state_is_function_of_last_N_all_events): the model's
+   state after each evaluation is the specified one, N taken from the configuration in force *)
 Fixpoint spec_trace (n : N) (os_rev : list bool) (evs : list event) : list N :=
   match evs with
   | [] => []
   | Eval _ m :: r => astate_code (spec_state n (m :: os_rev)) :: spec_trace n (m :: os_rev) r
-  | _ :: r => 99%N :: spec_trace n os_rev r
+  | Update w i :: r => 99%N :: spec_trace (w / i)%N os_rev r
+  | Silence _ :: r => 99%N :: spec_trace n os_rev r
+  end.
+
+Fixpoint mask_non_evals (evs : list event) (l : list N) : list N :=
+  match evs, l with
+  | e :: r, x :: l' => (if is_eval e then x else 99%N) :: mask_non_evals r l'
+  | _, _ => []
   end.
 
 Definition self_ok (k : acase) : bool :=
   let c := cond_of_code (k_cond k) in
   let evs := map (to_event c (k_thr k)) (k_events k) in
-  if forallb is_eval evs then
-    list_eqb N.eqb
-      (map fst (trace (k_deliver k) evs (new_alert (k_window k) (k_interval k) (k_cooldown k))))
-      (spec_trace (k_window k / k_interval k)%N [] evs)
-  else true.
+  list_eqb N.eqb
+    (mask_non_evals evs (map fst (trace (k_deliver k) evs (new_alert (k_window k) (k_interval k) (k_cooldown k)))))
+    (spec_trace (k_window k / k_interval k)%N [] evs).
 
 Fixpoint bad_from (ks : list acase) (idx : nat) : list nat :=
   match ks with
@@ -99,13 +104,17 @@ Definition bad_should_send (l : list (N * N * option Z * Z * Z * Z * bool)) : li
       ++ go r (S idx)
     end in go l O.
 
-(* shouldUpdateAlertStateToFiring: (window, interval, history state codes newest first, current state code, observed) *)
+(* history row codes: 0..3 = evaluation row with that state, 4 = config-change row *)
+Definition hrow_of_code (n : N) : hrow :=
+  match n with 4%N => HConfig | _ => HEval (state_of_code n) end.
+
+(* shouldUpdateAlertStateToFiring: (window, interval, history row codes newest first, current state code, observed) *)
 Definition bad_should_fire (l : list (N * N * list N * N * bool)) : list nat :=
   let fix go l idx :=
     match l with
     | [] => []
     | (w, i, h, cur, o) :: r =>
-      (if Bool.eqb (should_fire w i (map state_of_code h) (state_of_code cur)) o then [] else [idx]) ++ go r (S idx)
+      (if Bool.eqb (should_fire w i (map hrow_of_code h) (state_of_code cur)) o then [] else [idx]) ++ go r (S idx)
     end in go l O.
 
 (* ------------------------------------------------------------------ *)
